@@ -22,6 +22,9 @@ CLAIMED = {
  'C15': dict(
   text="For <=4 files with arbitrary (symbolic) walked / allow / ignore / named-in-diff flags, symbolic should_scan_files and several walk and map iteration orders, Z3 shows on the MIR of parse_blocks/parse_file that the files read are exactly (scan and walked and allow, or in diff) minus ignore, each once, and are the keys of the result. For every diff target path up to N bytes, line_changes_from_diff files it under the target minus exactly one leading b/, and skips removed files.",
   note="Trusted: interpreter, HashMap/iterator/string models. Stubs (arbitrary within their contract): globset (allow/ignore are free booleans per path), ignore::Walk, FileSystem, BlocksParser::parse, unidiff::PatchSet::from_str. Not decided: glob semantics, hidden/git-ignored files, repository-root discovery, cwd, quoted paths."),
+ 'C10': dict(
+  text="For every enumerated layout (lines before, indentation, 1-4 comment lines, tag on any of them, text after the comment on its last line, per-line lead/key/trail shapes) and every value of the key and blank bytes, Z3 shows on the MIR of the block parser glue and of the five sync validators: a sort/unique/pattern violation's line and byte columns delimit exactly the first offending key in the assembled file; line-count and affects violations span exactly '<'..'>' of the start tag; the block's tag position and content byte range are those of the layout.",
+  note="Trusted: interpreter, string models. Stubs: tree-sitter (the two Comment values of a /* */ layout; validated on sampled witnesses against the real binary), the winnow tag scanner (reference scanner), regex for ^a+$ only, serde_json::to_value. Not decided: Lua/AI ranges (async), regex-group keys, multi-byte text, other comment syntaxes."),
 }
 
 NOT_APPLICABLE = {
@@ -31,7 +34,7 @@ NOT_APPLICABLE = {
 }
 PENDING = "harness not built yet (planned, DESIGN.md section 4)"
 
-FIX_COMMITS = ["7840229", "fe70c83", "d9a5bb3", "c089a2f"]
+FIX_COMMITS = ["7840229", "fe70c83", "d9a5bb3", "c089a2f", "882bf2f"]
 
 
 def main():
